@@ -336,18 +336,22 @@ def rule_kind_table(run, F, cfg):
 
 def rule_blanket_flag(run, F, cfg):
     """`#@#+js()` (empty name) clears all injections; the flag that short-circuits later exceptions starts
-    false and is raised only there (if it started true, no scriptlet exception would ever be applied)"""
+    false and is raised only there (if it started true, no scriptlet exception would ever be applied). The flag
+    is found by its role: the boolean local tested on the way to the removal of a named exception."""
     f = F.fn("cosmetic_filter_cache::CosmeticFilterCache::hostname_cosmetic_resources")
-    lv = [l for l, n in f.varnames.items() if n == "except_all_scripts"]
-    if len(lv) != 1:
-        # the flag is an optimisation; without it the removals must simply be unconditional
-        rm = [(b, dominating_conditions(f, b, render=f.vexpr_operand)) for b, t in f.calls(r"HashMap::remove$")]
-        ok = bool(rm) and all(not any("except" in k for k in c) for b, c in rm)
-        run.ob("C16.6.blanket-script-exception", "no-flag", ok, "no short-circuit flag: removals are unconditional", config=cfg)
+    rm = [(b, dominating_conditions(f, b, render=f.vexpr_operand)) for b, t in f.calls(r"HashMap::remove$")]
+    flags = sorted({k for b, c in rm for k, v in c.items() if re.match(r"^\$\w+$", k)
+                    and str(f.locals[[l for l, n in f.varnames.items() if "$" + n == k][0]].get("ty") if isinstance(f.locals[0], dict) else "bool") == "bool"}) \
+        if rm else []
+    if not flags:
+        ok = bool(rm) and all(not any(re.match(r"^\$\w+$", k) for k in c) for b, c in rm)
+        run.ob("C16.6.blanket-script-exception", "no-flag", ok, "no short-circuit flag: named exceptions are removed unconditionally", config=cfg)
         return
+    flag = flags[0]
+    lv = [l for l, n in f.varnames.items() if "$" + n == flag]
     writes = []
     for b, i, st in f.statements():
-        if st["k"] == "assign" and not st["pl"]["p"] and st["pl"]["l"] == lv[0]:
+        if st["k"] == "assign" and not st["pl"]["p"] and st["pl"]["l"] in lv:
             c = dominating_conditions(f, b, render=f.vexpr_operand)
             empty = [v for k, v in c.items() if re.search(r"is_empty\(", k)]
             writes.append((f.vexpr_rvalue(st["rv"]), empty[0] if empty else None))
@@ -355,41 +359,46 @@ def rule_blanket_flag(run, F, cfg):
     raised_ok = all(w == ("false", None) or (w[0] == "true" and w[1] == 1) or w[0] == "false" for w in writes)
     clears = [(b, dominating_conditions(f, b, render=f.vexpr_operand)) for b, t in f.calls(r"HashMap::clear$")]
     clear_ok = len(clears) == 1 and any(re.search(r"is_empty\(", k) and v == 1 for k, v in clears[0][1].items())
-    rm = [(b, dominating_conditions(f, b, render=f.vexpr_operand)) for b, t in f.calls(r"HashMap::remove$")]
-    rm_ok = len(rm) == 1 and rm[0][1].get("$except_all_scripts") == 0
-    run.ob("C16.6.blanket-script-exception", "flag-discipline", init_ok and raised_ok and clear_ok and rm_ok,
-           "except_all_scripts starts false, is set to true only where the exception's name is empty (together with "
+    rm_ok = len(rm) == 1 and rm[0][1].get(flag) == 0
+    run.ob("C16.6.blanket-script-exception", "flag-discipline", len(flags) == 1 and init_ok and raised_ok and clear_ok and rm_ok,
+           "the short-circuit flag starts false, is set to true only where the exception's name is empty (together with "
            "script_injections.clear()), and a named exception is removed exactly when the flag is not raised "
-           f"(writes {writes})", site=f.loc(0), config=cfg)
+           f"(flag {flag}, writes {writes})", site=f.loc(0), config=cfg)
 
 
 def rule_label_walk(run, F, cfg):
     """get_hashes_from_labels hashes exactly the dot-separated suffixes hostname[dot+1..end] for every dot left
     of start_of_domain, and hostname[..end] itself (what the rule side stores are hashes of whole hostnames /
-    entities, so a different slice never meets a stored key)"""
+    entities, so a different slice never meets a stored key). Compared modulo the names of locals / parameters."""
+    from analysis.names import renaming
+    from collections import Counter
+    IDX = r"<str as std::ops::Index<[^>]*>>::index|core::str::traits::<impl std::ops::Index<[^>]*> for str>::index"
     g = F.fn("filters::cosmetic::get_hashes_from_labels")
     run.touched(g)
-    hashed = sorted(g.vexpr_operand(t["args"][0]) for b, t in g.calls(r"^utils::fast_hash$"))
-    want = sorted(["core::str::traits::index($hostname, std::ops::Range::Range{start: ($dot_ptr AddWithOverflow 1).0, end: $end})",
-                   "core::str::traits::index($hostname, std::ops::RangeTo::RangeTo{end: $end})"])
-    hashed_n = [re.sub(r"<str as std::ops::Index<[^>]*>>::index|core::str::traits::<impl std::ops::Index<[^>]*> for str>::index", "core::str::traits::index", h) for h in hashed]
-    run.ob("C16.7.label-walk", "hashed-slices", hashed_n == want,
-           f"the hashed slices are hostname[dot_ptr+1..end] and hostname[..end] (found {hashed_n})", site=g.loc(0), config=cfg)
-    fr = [g.vexpr_call(t) for b, t in g.calls(r"find_char_reverse$|memchr::memrchr$")]
-    fr_n = [re.sub(r"<str as std::ops::Index<[^>]*>>::index|core::str::traits::<impl std::ops::Index<[^>]*> for str>::index", "core::str::traits::index", x) for x in fr]
-    ok = len(fr_n) == 1 and fr_n[0] in ("memchr::memrchr(46, core::str::as_bytes(core::str::traits::index($hostname, std::ops::RangeTo::RangeTo{end: $dot_ptr})))", "utils::find_char_reverse(46, core::str::as_bytes(core::str::traits::index($hostname, std::ops::RangeTo::RangeTo{end: $dot_ptr})))")
-    upd = [g.vexpr_rvalue(st["rv"]) for b, i, st in g.statements()
-           if st["k"] == "assign" and not st["pl"]["p"] and g.varnames.get(st["pl"]["l"]) == "dot_ptr"]
-    run.ob("C16.7.label-walk", "walk", ok and sorted(upd) == ["$dot_index", "$start_of_domain"],
-           f"the walk searches the previous '.' in hostname[..dot_ptr], starting at start_of_domain and moving dot_ptr "
-           f"to each dot found (search {fr_n}, dot_ptr updates {upd})", config=cfg)
-    # callers: hostname hashes over the whole hostname down to the registrable domain; entity hashes over the
-    # hostname without its public suffix
+    hashed = [re.sub(IDX, "core::str::traits::index", g.vexpr_operand(t["args"][0])) for b, t in g.calls(r"^utils::fast_hash$")]
+    search = [re.sub(IDX, "core::str::traits::index", g.vexpr_call(t)).replace("utils::find_char_reverse", "memchr::memrchr")
+              for b, t in g.calls(r"find_char_reverse$|memchr::memrchr$")]
+    cursor_names = {n for l, n in g.varnames.items() if l > g.argc and str(g.locals[l].get("ty") if isinstance(g.locals[l], dict) else g.locals[l]) == "usize"}
+    upd = [("$" + g.varnames[st["pl"]["l"]], g.vexpr_rvalue(st["rv"])) for b, i, st in g.statements()
+           if st["k"] == "assign" and not st["pl"]["p"] and g.varnames.get(st["pl"]["l"]) in cursor_names
+           and "Iterator>::next(" not in g.vexpr_rvalue(st["rv"]) and "@Some" not in g.vexpr_rvalue(st["rv"])]
+    got = {"hashed": dict(Counter(hashed)), "search": search, "updates": dict(Counter(upd))}
+    want = {
+        "hashed": {"core::str::traits::index($hostname, std::ops::Range::Range{start: ($dot_ptr AddWithOverflow 1).0, end: $end})": 1,
+                   "core::str::traits::index($hostname, std::ops::RangeTo::RangeTo{end: $end})": 1},
+        "search": ["memchr::memrchr(46, core::str::as_bytes(core::str::traits::index($hostname, std::ops::RangeTo::RangeTo{end: $dot_ptr})))"],
+        "updates": {("$dot_ptr", "$start_of_domain"): 1, ("$dot_ptr", "$dot_index"): 1},
+    }
+    ren = renaming(got, want, fixed=())
+    run.ob("C16.7.label-walk", "walk-and-slices", ren is not None,
+           "the walk searches the previous '.' in hostname[..cursor], starting at start_of_domain and moving the cursor to "
+           "each dot found; it hashes hostname[cursor+1..end] at each dot and finally hostname[..end] "
+           f"(extracted {got})", site=g.loc(0), config=cfg)
     h = F.fn("filters::cosmetic::get_hostname_hashes_from_labels")
     hc = [h.vexpr_call(t) for b, t in h.calls(r"get_hashes_from_labels$")]
-    okh = len(hc) == 1 and bool(re.match(r"^filters::cosmetic::get_hashes_from_labels\(\$hostname, core::str::len\(\$hostname\), "
-                                         r"\(core::str::len\(\$hostname\) SubWithOverflow core::str::len\(\$domain\)\)\.0\)$", hc[0]))
-    run.ob("C16.7.label-walk", "hostname-caller", okh,
+    wanth = ["filters::cosmetic::get_hashes_from_labels($hostname, core::str::len($hostname), "
+             "(core::str::len($hostname) SubWithOverflow core::str::len($domain)).0)"]
+    run.ob("C16.7.label-walk", "hostname-caller", renaming(hc, wanth, fixed=()) is not None,
            f"hostname hashes: get_hashes_from_labels(hostname, hostname.len(), hostname.len() - domain.len()) ({hc})", config=cfg)
 
 
@@ -453,6 +462,9 @@ def rule_hidden_generic_table(run, F, cfg):
         "core::str::traits::index($hostname, std::ops::Range::Range{start: 0, end: ((core::str::len($hostname) SubWithOverflow core::str::len($public_suffix)).0 SubWithOverflow 1).0})",
         "core::str::traits::index($hostname, std::ops::RangeFrom::RangeFrom{start: (((core::str::len($hostname) SubWithOverflow core::str::len($domain)).0 AddWithOverflow $index_of_dot).0 AddWithOverflow 1).0})",
     ])
-    run.ob("C16.7.label-walk", "entity-slices", idx == want,
+    from analysis.names import renaming as _ren
+    from collections import Counter as _Counter
+    same = _ren(dict(_Counter(idx)), dict(_Counter(want)), fixed=()) is not None
+    run.ob("C16.7.label-walk", "entity-slices", same,
            "get_hostname_without_public_suffix: public_suffix = domain[dot+1..]; result = (hostname[0..len - "
            f"public_suffix.len() - 1], hostname[len - domain.len() + dot + 1..]) (found {idx})", site=h.loc(0), config=cfg)
